@@ -203,6 +203,12 @@ def run(tier, seed):
         path = os.path.join(tmp, "in%d.raw" % s)
         open(path, "wb").write(bytes(data))
         inputs.append({"s": s, "kind": kind, "path": path, "data": bytes(data), "cd": cd, "stave": stave})
+    # a capture that ends inside its first RDH (8..63 bytes): nothing is visited and nothing is reported, yet the statistics (RDH
+    # version, all counters zero) are written and must be compared like any others
+    cutn = rng.choice([8, 9, 40, 63])
+    cpath = os.path.join(tmp, "in_cut.raw")
+    open(cpath, "wb").write(inputs[0]["data"][:cutn])
+    inputs.append({"s": ninputs, "kind": "cut-inside-first-rdh", "path": cpath, "data": inputs[0]["data"][:cutn], "cd": [], "stave": False})
     # an old, long statistics file that every written file has to replace
     old = {"json": json.dumps({"old": ["x" * 100] * 400}, indent=2), "toml": "old = [\n" + ('    "%s",\n' % ("x" * 100)) * 400 + "]\n"}
     # ---- phase W: write (over the old file and to a fresh path), phase R: read back
@@ -324,6 +330,8 @@ def run(tier, seed):
     dj = []
     for j, tree, rc0 in good:
         cd = j["inp"]["cd"]
+        if not cd:
+            continue        # the capture cut inside its first RDH has no packet to change; its drift case is the cut itself (below)
         for _ in range(6 if deep else 2):
             data = bytearray(j["inp"]["data"])
             off = cd[rng.randrange(len(cd))][0]
@@ -345,6 +353,10 @@ def run(tier, seed):
             else:
                 data[off + 3] ^= 0x10
             dj.append({"j": j, "tree": tree, "data": bytes(data), "what": what, "id": len(dj)})
+
+    for j, tree, rc0 in good:
+        if j["inp"]["cd"] and j["inp"]["s"] == 0:
+            dj.append({"j": j, "tree": tree, "data": j["inp"]["data"][:rng.choice([8, 33, 63])], "what": "cut-inside-first-rdh", "id": len(dj)})
 
     def phase_d(x):
         j = x["j"]
